@@ -325,6 +325,7 @@ func c18Scenario(c *choice.Ctx, rep *report.R, k c18Kind, depth int) {
 			}
 		}
 	}
+	selOff()
 	if closes == 0 {
 		doClose()
 		wait()
